@@ -528,6 +528,14 @@ func deps(P *Program, v ssa.Value) map[ssa.Value]bool {
 					if isCallTo(w, "builtin:copy") && w.Call.Args[0] == x {
 						push(w.Call.Args[1])
 					}
+					// byte-order encoders write their value argument into the buffer: PutUint64(buf, v)
+					if strings.Contains(calleeName(w), ".PutUint") {
+						for _, a := range w.Call.Args {
+							if a != x {
+								push(a)
+							}
+						}
+					}
 					// out-parameter idiom of the zkproof lookups: bases.Exp(ret, name, exp, n)
 					if w.Call.IsInvoke() && w.Call.Method.Name() == "Exp" && len(w.Call.Args) == 4 && w.Call.Args[0] == x {
 						push(w.Call.Value)
